@@ -1,1 +1,50 @@
-From Olareg Require Import Base Index Reg.
+(* Props_C08.v — upload sessions are strictly sequential and isolated. *)
+From Olareg Require Import Base Index Reg RegProofs RegProofs2.
+Local Open Scope list_scope.
+
+(* out-of-order chunk: refused with 416/400; sessions, blobs and index of every repository unchanged *)
+Theorem C08_refuse_unchanged : forall cfg E r sid cr st body s s' o x,
+  find_sess sid (get_repo cfg r s) = Some x -> repo_allowed cfg r = true ->
+  (valid_range cr (e_len E (s_data x)) = false \/ st <> Some (e_len E (s_data x))) ->
+  run cfg E (upload_patch E r sid cr st body) s = (s', o) ->
+  (rs_status o = 416 \/ rs_status o = 400)%Z /\ same_content cfg s s'.
+Proof. exact patch_refused_unchanged. Qed.
+Print Assumptions C08_refuse_unchanged.
+
+(* accepted chunk: it was in order, and the session now holds old bytes ++ body; Range reports it *)
+Theorem C08_accepted_appends : forall cfg E r sid cr st body s s' o,
+  run cfg E (upload_patch E r sid cr st body) s = (s', o) -> rs_status o = 202%Z ->
+  exists x, find_sess sid (get_repo cfg r s) = Some x
+            /\ valid_range cr (e_len E (s_data x)) = true /\ st = Some (e_len E (s_data x))
+            /\ exists x', find_sess sid (get_repo cfg r s') = Some x'
+                          /\ s_data x' = (s_data x ++ body)%string /\ rs_range o = range_hdr E x'.
+Proof. exact patch_accepted_appends. Qed.
+Print Assumptions C08_accepted_appends.
+
+(* status query: exactly the bytes received, nothing altered *)
+Theorem C08_status_exact : forall cfg E r sid s s' o,
+  run cfg E (h_upload_get E r sid) s = (s', o) -> rs_status o = 204%Z ->
+  exists x, find_sess sid (get_repo cfg r s) = Some x /\ rs_range o = range_hdr E x /\ same_content cfg s s'.
+Proof. exact upload_get_exact. Qed.
+Print Assumptions C08_status_exact.
+
+(* a session id unknown in the addressed repository (never created there, completed, cancelled,
+   expired, evicted, or belonging to another repository) is refused and nothing is touched *)
+Theorem C08_unknown_refused : forall cfg E r sid cr st body s,
+  find_sess sid (get_repo cfg r s) = None ->
+  let res := run cfg E (upload_patch E r sid cr st body) s in
+  fst res = s /\ (400 <= rs_status (snd res) <= 500)%Z /\ rs_status (snd res) <> 202%Z.
+Proof. exact session_unknown_refused. Qed.
+Print Assumptions C08_unknown_refused.
+
+(* sessions of other repositories are never touched by a request *)
+Theorem C08_repo_scoped : forall cfg E s q r',
+  match q with QRestart => False | _ => True end ->
+  req_repo q <> r' -> get_repo cfg r' (fst (step cfg E s q)) = get_repo cfg r' s.
+Proof. exact request_frame. Qed.
+Print Assumptions C08_repo_scoped.
+
+(* whatever completes a session stores bytes under the digest of exactly those bytes *)
+Theorem C08_no_partial_blob : forall cfg E h, BlobsOK E (fst (run_hist cfg E init_state h)).
+Proof. exact blobs_ok_reachable. Qed.
+Print Assumptions C08_no_partial_blob.
